@@ -273,11 +273,18 @@ def rules_hooks(run, rid='C18.5', classes=None, why=''):
                 slots = [x for x in ci.node.body if isinstance(x, ast.Assign) and q.unparse(x.targets[0]) == '__slots__']
                 fields = sorted(q.const_str(e) for e in slots[0].value.elts) if slots else None
                 generic = False
-                for lp_ in q.walk(M, False):
+                bodies_ = [M]
+                for c_ in q.calls(M):          # .. also when the enumeration lives in a helper the hook hands itself to: return slots_state(self)
+                    if any(q.unparse(a_) == ps[0] for a_ in c_.args):
+                        tg_, ext_, ok_ = prog.resolve_call(c_, m)
+                        bodies_ += [t_.node for t_ in tg_ if len(q.param_names(t_.node)) >= 1]
+                for lp_ in [x_ for b_ in bodies_ for x_ in q.walk(b_, False)]:
                     # every slot of the class (and of its bases) is enumerated and read: for name in copyreg._slotnames(type(self)) / self.__slots__
                     if isinstance(lp_, ast.For) and isinstance(lp_.target, ast.Name) and ('_slotnames(' in q.unparse(lp_.iter) or '__slots__' in q.unparse(lp_.iter)):
+                        owner_ = next((b_ for b_ in bodies_ if any(x_ is lp_ for x_ in q.walk(b_, False))), M)
+                        me_ = ps[0] if owner_ is M else q.param_names(owner_)[0]
                         gets = [c_ for c_ in q.calls(lp_) if isinstance(c_.func, ast.Name) and c_.func.id == 'getattr' and len(c_.args) >= 2 and
-                                q.unparse(c_.args[0]) == ps[0] and q.unparse(c_.args[1]) == lp_.target.id]
+                                q.unparse(c_.args[0]) == me_ and q.unparse(c_.args[1]) == lp_.target.id]
                         stored = [st_ for st_ in q.walk(lp_, False) if isinstance(st_, ast.Assign) and isinstance(st_.targets[0], ast.Subscript) and
                                   q.unparse(st_.targets[0].slice) == lp_.target.id and any(q.in_node(g_, st_.value) for g_ in gets)]
                         if stored and not any(guards(st_, stop=lp_) for st_ in stored):
